@@ -274,6 +274,15 @@ class Meter:
             ct = self.cipher_bytes(":".join(f[3:]))
             return acse.UserInformation(xdlms.GlobalCipherInitiateResponse(
                 security.SecurityControlField.from_bytes(bytes([int(f[1])])), int(f[2]), ct))
+        if k == "aare" and len(toks) == 7:
+            # the same AARE with its responder-acse-requirements bit string written another way (no unused bits / six unused bits
+            # instead of seven): the same value in BER, the same AARE for the decoder
+            b = self.input_bytes(toks[:6])
+            alt = bytes.fromhex(toks[6])
+            if b.count(b"\x88\x02\x07\x80") != 1:
+                raise fw.MachineryError("responder-acse-requirements not found once in the AARE")
+            b = b.replace(b"\x88\x02\x07\x80", b"\x88\x02" + alt)
+            return b
         if k == "aare":
             _, res, mech, title, chal, ui = toks
             return acse.ApplicationAssociationResponse(
